@@ -1,7 +1,7 @@
 (* C03 — property theorems only. Each is closed by [exact] of a lemma proved in C03/Proofs*.v. *)
 From Coq Require Import List ZArith Bool String Lia.
 Import ListNotations.
-From AgileV Require Import C03.Model C03.ModelCnn C03.ModelNet C03.ModelMulti C03.Proofs C03.ProofsS C03.ProofsCnn C03.ProofsNet C03.ProofsMulti.
+From AgileV Require Import C03.Model C03.ModelCnn C03.ModelNet C03.ModelMulti C03.Proofs C03.ProofsS C03.ProofsCnn C03.ProofsCnn2 C03.ProofsNet C03.ProofsMulti C03.ProofsShape.
 Local Open Scope Z_scope.
 
 (* ======================= EvolvableMLP ======================= *)
@@ -248,6 +248,15 @@ Theorem valid_inv_cnn_partial : forall st c a m r1 r2,
 Proof. exact cnn_valid_inv_partial. Qed.
 Print Assumptions valid_inv_cnn_partial.
 
+(* change_kernel on the LAST layer does preserve validity (the new kernel is at most a quarter of that layer's own
+   output, which is at most its input); the gap of the partial theorem is change_kernel on an inner layer *)
+Theorem change_kernel_last_valid_cnn : forall st c a hl r1 r2,
+  cnn_ok st a -> 1 < zlen (channels a) ->
+  (match hl with Some l => l | None => pick 1 (Z.min 4 (zlen (channels a))) r1 end) = zlen (channels a) - 1 ->
+  cnn_ok st (arch_of (cnn_step st c a (CChangeKernel None hl) r1 r2)).
+Proof. exact cnn_change_kernel_last_valid. Qed.
+Print Assumptions change_kernel_last_valid_cnn.
+
 Theorem change_kernel_valid_refuted_cnn :
   exists st c a r1 r2,
     cnn_ok st a /\ cnn_meth_ok (CChangeKernel None None) /\
@@ -359,8 +368,11 @@ Proof. exact net_rebuild_exact. Qed.
 Print Assumptions rebuild_exact_net.
 
 (* FINDING (current tree): the StochasticActor advertises the head's mutation methods through an
-   EvolvableWrapper, but such a call changes nothing and reports no applied method although no bound stops it. *)
+   EvolvableWrapper, but such a call changes nothing and reports no applied method although no bound stops it.
+   ([wrapper_forwards] is the model constant that records this behaviour; the statement becomes vacuous once the
+   repair fixes/C03-wrapper-forwarding.patch is applied and the constant is set to true.) *)
 Theorem advertised_effective_wrapped_head_refuted :
+  wrapper_forwards = false ->
   exists s c a r1 r2,
     ns_wrapped_head s = true /\ zlen (n_head a) < m_max_layers (n_head_cfg c) /\
     net_step s c a (NHead MAddLayer) r1 r2 = (a, ""%string, []).
@@ -405,6 +417,19 @@ Theorem rebuild_exact_multi : forall s c st m r1 r2,
   let st' := fst (fst (multi_mutate s c st m r1 r2)) in multi_built st' = multi_shapes s (multi_arch_of st').
 Proof. exact multi_rebuild_exact. Qed.
 Print Assumptions rebuild_exact_multi.
+
+(* ======================= declared output shape ======================= *)
+(* shape-level forward pass of the linear / normalisation stacks: a batch [b; num_inputs] is mapped to
+   [b; num_outputs] for EVERY architecture (any hidden sizes, any number of layers / blocks) *)
+Theorem shape_out_mlp : forall s h b,
+  ms_noisy s = false -> forward_shape (mlp_shapes s h) [b; ms_in s] = Some [b; ms_out s].
+Proof. exact mlp_forward_shape. Qed.
+Print Assumptions shape_out_mlp.
+
+Theorem shape_out_simba : forall s a b,
+  forward_shape (simba_shapes s a) [b; ss_in s] = Some [b; ss_out s].
+Proof. exact simba_forward_shape. Qed.
+Print Assumptions shape_out_simba.
 
 (* ======================= non-vacuity ======================= *)
 Example mlp_nonvacuous :
